@@ -88,6 +88,15 @@ impl<T, E> Observer<T, E> for ObservableFutureObserver<T, E> {
 
   fn error(mut self, err: E) {
     send_observable_value(&mut self, Err(err));
+    // The error terminates the observable: resolve the future now, otherwise
+    // it stays pending forever.
+    if let Some(last_value) = self.last_value.take() {
+      self
+        .sender
+        .unbounded_send(last_value)
+        .expect("failed to send observable error");
+    }
+    self.sender.close_channel();
   }
 
   fn complete(mut self) {
